@@ -1748,7 +1748,9 @@ def memalg_explore(prog, f, E, kind, roles, reloc, limit=400):
                 if kind == 'a_copy':
                     want_seg(Y_, ladd(Y_, CY), lambda c: same_content(m, c, old()), 'the untouched source elements')
                 elif kind in ('a_move', 'a_move_n'):
-                    want_seg(Y_, ladd(Y_, CY), lambda c: c[0] == 'mf' or same_content(m, c, old()), 'the (moved-from) source elements, still alive')
+                    # a byte copy is a move only for trivially copyable types; any other type must have been move-constructed from
+                    want_seg(Y_, ladd(Y_, CY), lambda c: c[0] == 'mf' or (m.trivial and same_content(m, c, old())),
+                             'moved-from source elements (the element type is not trivially copyable: copying its bytes leaves two owners)')
                 else:
                     want_seg(Y_, ladd(Y_, CY), lambda c: not alive(c) or reloc, 'no object (relocated away)')
                 want_seg(ladd(Y_, CY), None, lambda c: not alive(c) or m.trivial, 'raw memory')
